@@ -578,7 +578,14 @@ fn check<E: Engine>(prop: &str, tier: Tier, seed: u64) -> i32 {
             eprintln!("warning: undecodable regress case {}", p.display());
             continue;
         };
+        {
+            // visible to the hang watchdog and the abort handler like a generated case
+            let c2 = case.clone();
+            set_current(0, Some(Box::new(move || serde_json::to_value(&c2).unwrap_or(Value::Null))));
+        }
         let rep = E::run(&ctx, &case);
+        set_current(0, None);
+        PROGRESS.fetch_add(1, Ordering::Relaxed);
         regress_run += 1;
         total.cases += 1;
         total.executions += rep.executions.max(1);
